@@ -17,6 +17,12 @@
    is started in the background while TLC works; a run in which the maintenance loop stalled for a whole
    limiter_expiration is inconclusive (repeated, then infra), never a violation.  TLC checks the same
    mechanism at design level (Throttle_expiry.cfg: Maintain action, BusyKeyWithinLimit, EvictedOnlyIdle).
+4. Concurrency family: 8 real Plugin instances of one pipeline (they share the pipeline's limiters map) meet at
+   brand-new keys at the same instant (forced: the harness holds the map's write lock while they queue on
+   getOrAdd's read lock; plus unforced fresh keys), frozen bucket clock; per key exactly min(limit, arrivals)
+   events must pass on the merged real history.  The race is constructed/probabilistic; correct code (one
+   limiter per key) cannot fail it.  TLC checks getOrAdd's two-phase lookup with concurrent callers at design
+   level (Throttle_map.cfg: SpecMap; mechanism M_ReturnStoredLimiter, mutant "orphan" must be rejected).
 """
 import json
 import os
@@ -26,10 +32,11 @@ import vlib
 
 LEVEL = "model_checking"
 
-MUTANTS = ["lt", "nozero", "wipeprev", "rot1", "rotdif", "noremap", "future", "shared", "steal", "nogen"]
-MUTANT_CFG = {"nogen": "Throttle_expiry.cfg"}
+MUTANTS = ["lt", "nozero", "wipeprev", "rot1", "rotdif", "noremap", "future", "shared", "steal", "nogen", "orphan"]
+MUTANT_CFG = {"nogen": "Throttle_expiry.cfg", "orphan": "Throttle_mapmut.cfg"}
 PROPERTY_INVARIANTS = {"NeverOverLimit", "TotalWithinSum", "NoEarlyReject", "Remap", "ValueWithinShare",
-                       "MustRespected", "KeysIndependent", "BusyKeyWithinLimit", "EvictedOnlyIdle"}
+                       "MustRespected", "KeysIndependent", "BusyKeyWithinLimit", "EvictedOnlyIdle",
+                       "MapNeverOverLimit", "MapNoEarlyReject"}
 
 
 def start_expiry(ctx, binary, n):
@@ -68,7 +75,7 @@ def run(ctx):
     binary = ctx.go_test_build("plugin/action/throttle")
     exp_proc, exp_out = start_expiry(ctx, binary, 1)          # real time, runs while TLC works
     if ctx.replay:
-        cases = [r["case"] for r in json.load(open(ctx.replay)) if r["case"].get("s") != "expiry"]
+        cases = [r["case"] for r in json.load(open(ctx.replay)) if r["case"].get("s") not in ("expiry", "concurrent")]
         cases = cases or [{"s": "ring", "C": 1, "k": 0, "d": 0, "l": [1], "e": [[1, 0, 0, 1, 0, 1, 1, 0]]}]
         total = len(cases)
         res = ctx.tlc_expect_ok("Throttle", "Throttle_mutant.cfg", timeout=300, deadlock=False, workers=4)
@@ -84,6 +91,7 @@ def run(ctx):
             cases += back.printed
             back.out = ""
         ctx.tlc_expect_ok("Throttle", "Throttle_expiry.cfg", timeout=600, deadlock=False, workers=8)
+        ctx.tlc_expect_ok("Throttle", "Throttle_map.cfg", timeout=600, deadlock=False, workers=8)
         # every spec mutant must be rejected by a property invariant (the oracle is not vacuous)
         for m in MUTANTS:
             r = ctx.tlc("Throttle", MUTANT_CFG.get(m, "Throttle_mutant.cfg"), timeout=300, deadlock=False, workers=4,
@@ -109,12 +117,23 @@ def run(ctx):
         raise vlib.Infra("harness oracle and specification disagree on %d steps of identical histories: %s" %
                          (st["OracleMismatch"], st["OracleDetail"]))
 
+    conc_out = os.path.join(ctx.scratch, "c16_conc.json")
+    rc, txt = ctx.run_bin(binary, "^TestVerifC16Concurrent$", env={"VERIF_CONC_OUT": conc_out}, timeout=300)
+    if rc != 0 or not os.path.exists(conc_out):
+        raise vlib.Infra("C16 concurrency family failed rc=%s:\n%s" % (rc, txt[-3000:]))
+    conc = json.load(open(conc_out))
+    ctx.extra["concurrency_family"] = dict({k: v for k, v in conc.items() if k != "violations"},
+                                           note="race on brand-new keys is constructed (forced keys: map write lock held "
+                                                "while all instances queue on getOrAdd's read lock) / probabilistic "
+                                                "(natural keys); the oracle is order-independent and cannot fail on code "
+                                                "with one limiter per key")
+
     ex = finish_expiry(ctx, binary, exp_proc, exp_out)
     ctx.extra["expiry_family"] = {k: v for k, v in ex.items() if k != "violations"}
 
-    ctx.evaluations = st["Steps"] + ex["hits"]
+    ctx.evaluations = st["Steps"] + ex["hits"] + conc["hits"]
     ctx.nontrivial = st["NonTrivial"]
-    ctx.traces_validated = 2 * r["executed"] + st["Projections"] + 1
+    ctx.traces_validated = 2 * r["executed"] + st["Projections"] + 1 + conc["keys"]
     ctx.exhaustive = not ctx.replay
     ctx.drift += st["Drift"]
     ctx.extra["replay_stats"] = st
@@ -131,6 +150,8 @@ def run(ctx):
         "in-memory backend; limits >= 0; limiter expiry switched off (limiter_expiration 100000h) in the step-by-step "
         "replay; exercised separately by the real-time expiry family (limiter_expiration 2.5s, real maintenance loop, "
         "two busy keys and one idle key, one frozen bucket)",
+        "concurrency family: the simultaneous first touch of a brand-new key by several plugin instances is constructed "
+        "(forced) or probabilistic (natural); 8 instances, 30 rounds x 4 fresh keys, count kind, one frozen bucket",
         "the retained window of a key is anchored at the newest clock reading seen with an event of that key",
         "kind size: an event rejected although passed+size would still fit (arrivals are counted) is left open, "
         "as are decisions for unlisted distribution values when only stolen room could admit them",
@@ -146,6 +167,7 @@ def run(ctx):
             continue
         recs.append(m)
     recs += ex.get("violations") or []
+    recs += conc.get("violations") or []
     if r.get("by_kind"):
         ctx.extra["mismatches_by_kind"] = r["by_kind"]
     ctx.classify(recs)
